@@ -111,6 +111,25 @@ func frameCase(c *core.Ctx, t *core.Trace, gen string, cas int) error {
 	}
 	defer conn.Close()
 
+	// every other connection: the caller holds a result of ToBytesPack (uncopied) across the client's sends --
+	// the frames the client builds are later encoder calls; the held bytes are reported after the last frame
+	var held []byte
+	var heldKind string
+	var heldProj core.Ev
+	if cas%2 == 1 {
+		hr := c.Rng("frame-held", cas) // a generator of its own: the draws of the frames stay what they were
+		light = true
+		hs := randShape(hr, kinds[hr.Intn(len(kinds))], true)
+		light = false
+		var hp pack.Pack
+		hp, heldProj = realize(hs)
+		heldKind = hs.Kind
+		if msg := core.Guard(func() { held = pack.ToBytesPack(hp) }); msg != "" {
+			t.Emit(core.Ev{"ev": "Panic", "msg": msg})
+			return nil
+		}
+	}
+
 	k := 1 + r.Intn(3)
 	if useQueue {
 		k = 1
@@ -168,6 +187,9 @@ func frameCase(c *core.Ctx, t *core.Trace, gen string, cas int) error {
 			return nil // TLC judges the partial frame
 		}
 	}
+	if held != nil {
+		t.Emit(core.Ev{"ev": "Enc", "kind": heldKind, "p": heldProj, "bytes": core.Cp(held), "held": true})
+	}
 	// stop the background sender before closing, then everything behind the last frame
 	client.Destroy()
 	client.Close()
@@ -210,7 +232,7 @@ func randLicense(r *rand.Rand) string {
 }
 
 func Run(c *core.Ctx) error {
-	c.Rule = "one case = one pack of one of the eight named types (tag-count, log-sink, text, parameter, event, zip, hit-map, counter) written by the real writer (pack.ToBytesPack, twice) or sent through a real OneWayTcpClient to a loopback peer, or one history of a pack object (built, changed through public mutators / exported fields, written 2..8 times); non-trivial: every case (each has a header and a body); distinct by (type, header form, encoded length[, license length, queued]) resp. (type, set of calls made)"
+	c.Rule = "one case = one pack of one of the eight named types (tag-count, log-sink, text, parameter, event, zip, hit-map, counter) written by the real writer (pack.ToBytesPack, twice) or sent through a real OneWayTcpClient to a loopback peer, or one history of a pack object (built, changed through public mutators / exported fields, written 2..8 times), or one history of encoder outputs held by the caller (2..14 results of ToBytesPack / WritePack into 0..3 outputs of the caller kept uncopied, later calls incl. the reader and 2..4 goroutines encoding at once, every kept result looked at again); non-trivial: every case (each has a header and a body); distinct by (type, header form, encoded length[, license length, queued]) resp. (type, set of calls made)"
 	t := c.Trace("c05_wire", "Trace_PackWire")
 
 	// gen "enum" (B): the small world, exhaustively
@@ -279,6 +301,19 @@ func Run(c *core.Ctx) error {
 					mutCase(c, ot, kind, cas)
 				}
 				cas++
+			}
+		}
+	}
+
+	// The encoder OUTPUT while the caller holds it (Trace_PackOut): the slices
+	// handed out by ToBytesPack / the caller's own outputs after WritePack are
+	// kept uncopied and looked at again after later encoder calls.
+	ht := c.Trace("c05_out", "Trace_PackOut")
+	if c.WantGen("hold") {
+		n := c.Pick(160, 2400)
+		for cas := 0; cas < n; cas++ {
+			if c.Want("hold", cas) {
+				holdCase(c, ht, cas)
 			}
 		}
 	}
